@@ -338,6 +338,30 @@ fn file_cases(tier: Tier) -> Vec<(String, Vec<u8>)> {
             v.push((format!("bytes-{a:02x}{b:02x}"), vec![*a, *b]));
         }
     }
+    // accepted programs of several kinds (the printed result is compared with the in-process pipeline)
+    for (i, p) in crate::props::sem::nested_family().into_iter().enumerate() {
+        if i % 60 == 0 {
+            v.push((format!("nested-family-{i}"), p.into_bytes()));
+        }
+    }
+    for (i, (_, p, _)) in crate::props::sem::alias_family(2).into_iter().enumerate() {
+        if i % 40 == 0 {
+            v.push((format!("alias-family-{i}"), p.into_bytes()));
+        }
+    }
+    for (i, p) in [
+        "(p : int -> type) => (h : (y : int) -> p y) => (x : int) => h x",
+        "(a : type) => (p : a -> type) => (x : a) => (h : (y : a) -> p y) => h x",
+        "{a : type} => (x : a) => x",
+        "f : (int -> int) = (x : int) => x * 2\ng : int = f 20 + 2\ng",
+        "b : bool = 10 - 3 - 2 >= 6\nif b then 1 else 0",
+        "x = y + 1; y = 2; x",
+    ]
+    .iter()
+    .enumerate()
+    {
+        v.push((format!("program-{i}"), p.as_bytes().to_vec()));
+    }
     // invalid UTF-8 mutations of the examples, and the examples themselves
     if let Ok(rd) = std::fs::read_dir(format!("{}/examples", crate::infra::REPO_DIR)) {
         let mut paths: Vec<_> = rd.filter_map(|e| e.ok()).map(|e| e.path()).collect();
@@ -359,6 +383,39 @@ fn file_cases(tier: Tier) -> Vec<(String, Vec<u8>)> {
         }
     }
     v
+}
+
+// For an accepted file: the standard output of `gram check` and `gram run` is what the in-process
+// pipeline computes, in the format of main.rs.
+fn printed_result(text: &str, path: &str, check_stdout: &[u8], shown: &str) {
+    use crate::format::CodeStr;
+    let expected = bind::with_front(text, &[], 3, |f| match f {
+        Front::Ok { elab, ty, .. } => {
+            let check = format!("Elaborated term:\n\n{}\n\nElaborated type:\n\n{}\n", elab.to_string().code_str(), ty.to_string().code_str());
+            let (end, how, _) = bind::run_steps(elab, 200_000, |_, _| {});
+            let run = match how {
+                bind::RunEnd::Value => Some(format!("{}\n", end.to_string().code_str())),
+                _ => None,
+            };
+            Some((check, run))
+        }
+        _ => None,
+    });
+    let Some((check, run)) = expected else { return };
+    if check.as_bytes() != check_stdout {
+        violation("cli-prints-another-result", shown, &format!("stdout of gram check = {check:?}"), &format!("{:?}", String::from_utf8_lossy(check_stdout)));
+        return;
+    }
+    count!("cli_check_output_as_computed");
+    if let Some(run) = run {
+        let l = launch(&["run", path], Duration::from_secs(20));
+        count!("launches");
+        if l.timed_out || l.code != Some(0) || l.stdout != run.as_bytes() || !l.stderr.is_empty() {
+            violation("cli-prints-another-result", shown, &format!("gram run: exit 0, stdout {run:?}"), &format!("exit {:?}, stdout {:?}, stderr {:?}", l.code, String::from_utf8_lossy(&l.stdout), crate::infra::clip(&String::from_utf8_lossy(&l.stderr), 300)));
+        } else {
+            count!("cli_run_output_as_computed");
+        }
+    }
 }
 
 fn cli_sweep(tier: Tier) -> Sweep {
@@ -429,6 +486,11 @@ fn cli_sweep(tier: Tier) -> Sweep {
                             violation("cli-vs-library", &shown(), &format!("library accepted = {v}"), &format!("gram check exit {:?}", l.code));
                         } else {
                             count!("cli_library_agreements");
+                            if v {
+                                // "exits 0 with the result on standard output": what is printed is the
+                                // elaborated term and type (check) and the value (run) of the pipeline
+                                printed_result(text, &path, &l.stdout, &shown());
+                            }
                         }
                     }
                     Err((sub, what)) => violation(&sub, &shown(), "no panic", &what),
@@ -471,7 +533,7 @@ impl Prop for C14 {
     fn evidence(&self, tier: Tier) -> EvidenceSpec {
         EvidenceSpec {
             level: "exploration",
-            rule: "in-process, in isolated workers with a 16 MiB stack: every string up to the C09 bounds through tokenize+parse (and type_check when they parse); every token sequence up to length 4/5 over all 29 token symbols (28 kinds + line-break terminator, so also streams tokenize never emits) and of length 5/6 over a 21-symbol class alphabet through parse; every sentence of grammar.y up to 5/7 tokens (class alphabet) with every single-token deletion, substitution (29 kinds) and insertion (29 kinds at every position), and the same edits of every sentence of six sub-grammar slices (binders, definition groups, groups in binder domains to 9/11 tokens, conditionals with groups to 9/10, arithmetic and applications to 7/8), where an edit leaves a recovered error deep inside an otherwise complete tree; 624 programs in which the checker has to quote a compound operand (26 operand shapes: applications with parenthesised arguments in every position, operator chains with grouped operands, negations, conditionals, groups; in 8 contexts that reject an integer there; 3 layouts). Each stage must return Ok or a non-empty error list, never panic, never abort, never exceed the watchdog. Process level: the real `gram check` binary on every byte string of length <= 1, every pair over a byte class alphabet (quick) / all 65536 pairs (thorough), the examples and single-byte invalid-UTF-8 mutations of them, an empty file, a missing file and a directory: exit 0 with output and no stderr, or exit 1 with no output and an [Error] diagnostic; and the verdict must agree with the in-process pipeline. non-trivial = inputs that reach name resolution or beyond, and launches that satisfied the contract".to_owned(),
+            rule: "in-process, in isolated workers with a 16 MiB stack: every string up to the C09 bounds through tokenize+parse (and type_check when they parse); every token sequence up to length 4/5 over all 29 token symbols (28 kinds + line-break terminator, so also streams tokenize never emits) and of length 5/6 over a 21-symbol class alphabet through parse; every sentence of grammar.y up to 5/7 tokens (class alphabet) with every single-token deletion, substitution (29 kinds) and insertion (29 kinds at every position), and the same edits of every sentence of six sub-grammar slices (binders, definition groups, groups in binder domains to 9/11 tokens, conditionals with groups to 9/10, arithmetic and applications to 7/8), where an edit leaves a recovered error deep inside an otherwise complete tree; 624 programs in which the checker has to quote a compound operand (26 operand shapes: applications with parenthesised arguments in every position, operator chains with grouped operands, negations, conditionals, groups; in 8 contexts that reject an integer there; 3 layouts). Each stage must return Ok or a non-empty error list, never panic, never abort, never exceed the watchdog. Process level: the real `gram check` binary on every byte string of length <= 1, every pair over a byte class alphabet (quick) / all 65536 pairs (thorough), the examples and single-byte invalid-UTF-8 mutations of them, an empty file, a missing file and a directory: exit 0 with output and no stderr, or exit 1 with no output and an [Error] diagnostic; and the verdict must agree with the in-process pipeline; for accepted files (the examples, members of the alias and nested-group families, dependent-type programs) the standard output of `gram check` and of `gram run` must be, byte for byte, the elaborated term and type / the value that the in-process pipeline computes, in the format of main.rs. non-trivial = inputs that reach name resolution or beyond, and launches that satisfied the contract".to_owned(),
             assumptions: vec![
                 "token sequences that parse are also type checked in-process unless the reference finds a divergent piece in them (counted as skipped_divergent); an abnormal ending after that pre-screen is a violation".to_owned(),
                 "NO_COLOR=1 (as the repository's CI)".to_owned(),
@@ -483,7 +545,7 @@ impl Prop for C14 {
             traces: None,
             exhaustive: true,
             bounds: json!({"strings": "as C09", "token_sequences_29": tier.pick(4, 5), "token_sequences_class": tier.pick(5, 6), "edited_sentences_max_tokens": tier.pick(5, 7)}),
-            minimums: vec![("lib_accepted", 1000), ("lib_rejected", 100_000), ("launches", 500), ("cli_accepted", 5), ("cli_rejected", 100), ("cli_library_agreements", 100)],
+            minimums: vec![("lib_accepted", 1000), ("lib_rejected", 100_000), ("launches", 500), ("cli_accepted", 5), ("cli_rejected", 100), ("cli_library_agreements", 100), ("cli_check_output_as_computed", 30), ("cli_run_output_as_computed", 20)],
         }
     }
 }
